@@ -23,6 +23,8 @@ import SiaModel.Prim.Sha256
     policy-decode <hex>             → "ok <policy>" | "reject"
     policy-std <pkhex> <timelockLeafHex> <sigsreqLeafHex>
         → "<StandardAddress hex> <StandardUnlockHash hex>"
+    policy-unlockhash <uc policy> <timelockLeafHex> <sigsreqLeafHex>
+        → hex of UnlockConditions.UnlockHash() (fast path included)
 -/
 namespace Sia.Driver
 open Sia Sia.Policy
@@ -175,11 +177,18 @@ def policyStdOp (args : List String) : String :=
     | _, _, _ => "bad-op"
   | _ => "bad-op"
 
+def policyUnlockHashOp (args : List String) : String :=
+  match args with
+  | [p, tl, sr] => match parsePolicy p, hexDecode tl, hexDecode sr with
+    | some (.uc c), some tl, some sr => hexEncode (unlockHash blake2b256 tl sr c)
+    | _, _, _ => "bad-op"
+  | _ => "bad-op"
+
 end Sia.Driver
 
 namespace Sia.Driver
 def policyOps : List (String × (List String → String)) :=
   [("policy-verify", policyVerifyOp), ("policy-address", policyAddressOp),
    ("policy-encode", policyEncodeOp), ("policy-decode", policyDecodeOp),
-   ("policy-std", policyStdOp)]
+   ("policy-std", policyStdOp), ("policy-unlockhash", policyUnlockHashOp)]
 end Sia.Driver
